@@ -303,7 +303,7 @@ func runMultisig(run *ev.Run) {
 		cases = append(cases, exhaustiveCases(n)...)
 	}
 	nEx := len(cases)
-	for i := 0; i < ev.Pick(4000, 120000); i++ {
+	for i := 0; i < ev.Pick(4000, 60000); i++ {
 		cases = append(cases, randomCase(rng.New(sMultisig+uint64(i))))
 	}
 	for i, c := range cases {
@@ -322,7 +322,7 @@ func runMultisig(run *ev.Run) {
 	run.Obs("multisig_exhaustive_cases", int64(nEx))
 	procs := []int{runtime.NumCPU(), 1, 2, 3, 4, 7}
 	if ev.Tier() == "thorough" {
-		procs = append(procs, 5, 16, 2, 1)
+		procs = append(procs, 16, 2)
 	}
 	old := runtime.GOMAXPROCS(0)
 	defer runtime.GOMAXPROCS(old)
@@ -437,7 +437,7 @@ func runMultisigVM(run *ev.Run, f *msFixture) {
 	for pos, k := range order {
 		rank[k] = pos
 	}
-	n := ev.Pick(1200, 30000)
+	n := ev.Pick(1200, 20000)
 	family(run, "witness", n, func(c *tc, i int) (string, bool) {
 		r := rng.New(sMSVM + uint64(i))
 		mc := randomCase(r)
